@@ -349,6 +349,14 @@ func (c *container) Destroy() error {
 	c.mu.Lock()
 	defer c.mu.Unlock()
 
+	// a reply that arrived but was never taken (its call gave up on the broken connection
+	// first) may carry descriptors: nobody will ask for it any more
+	select {
+	case r := <-c.recvCh:
+		closeFds(r.Msg.Fds)
+	default:
+	}
+
 	// kill process
 	c.process.Kill()
 	_, err := c.process.Wait()
